@@ -652,6 +652,8 @@ fn gen_filter_case(rng: &mut Rng, idx: u64, run: &Run) -> Vec<String> {
                 2 => mono_ns += 6_000_000_000,                             // clock meddling: > 5 s apart
                 3 => mono_ns = mono_ns.saturating_sub(5_500_000_000),
                 4 => mono_ns += 4_999_000_000,                             // just inside the threshold
+                5 => lt_ticks = 1u64 << 63,                                // local difference = i64::MIN: saturating abs_diff
+                6 => lt_ticks = (1u64 << 63) + 1,
                 _ => {}
             }
         }
